@@ -590,6 +590,19 @@ def rule_memo_immutable(model):
             nm = norm(d).split('.')[-1].lower()
             if not ('cache' in nm or 'memo' in nm):
                 continue
+            # a memo keyed by == / hash conflates equal values of
+            # different types (True, 1, 1.0; 0.0, -0.0, False)
+            typed = isinstance(dec, ast.Call) and any(
+                k.arg == 'typed' and isinstance(k.value, ast.Constant)
+                and k.value.value is True for k in dec.keywords)
+            if fi.params() and not typed:
+                r.finding(fi.where, f'@{norm(dec)} def {fi.name}',
+                          f'{fi.name}() is memoised by the value of its '
+                          'argument: equal values of different types '
+                          '(True / 1 / 1.0, 0.0 / -0.0 / False) share one '
+                          'entry, so what is returned for a value depends '
+                          'on which equal value was seen first in the '
+                          'process', node=fi.node, ctx=fi)
             rets = [x for x in own_nodes(fi.node)
                     if isinstance(x, ast.Return) and x.value is not None]
             bad = [x for x in rets if _maybe_mutable(model, fi, x.value)]
